@@ -152,7 +152,8 @@ class Maximizer(FormulaStep):
         """
         val2 = eval_stack.pop()
         val1 = eval_stack.pop()
-        res = max(val1, val2)
+        # `max()` ignores a NaN in the second position, so check explicitly.
+        res = math.nan if math.isnan(val1) or math.isnan(val2) else max(val1, val2)
         eval_stack.append(res)
 
 
@@ -175,7 +176,8 @@ class Minimizer(FormulaStep):
         """
         val2 = eval_stack.pop()
         val1 = eval_stack.pop()
-        res = min(val1, val2)
+        # `min()` ignores a NaN in the second position, so check explicitly.
+        res = math.nan if math.isnan(val1) or math.isnan(val2) else min(val1, val2)
         eval_stack.append(res)
 
 
